@@ -16,6 +16,7 @@ import (
 	"math/big"
 	"os"
 	"runtime"
+	"sort"
 	"sync"
 	"sync/atomic"
 	"time"
@@ -40,6 +41,83 @@ type wRun struct {
 	// Keys: "one" = client trusts only the server's key, "many" = the key is second of three.
 	Keys      string `json:"client_keys"`
 	ExpiresIn int    `json:"expires_in,omitempty"`
+	// Secrets dimension. "" = whatever the random stream gives (a uniformly random 2048-bit number, so g^x, and
+	// the auth key, are full length with probability 255/256). Otherwise the 2048-bit number that the flow draws
+	// for its DH secret (the client's b / the server's a: the first 256-byte read from the random source) is:
+	//   "exp:N"      the number N (small exponents make g^N short: 3^1252..3^1291 have 249..256 bytes)
+	//   "keyzero:K"  (ClientB only, needs ServerA "exp:N") the smallest b >= 1300 with g^b inside the safety
+	//                range such that auth_key = g_a^b mod p starts with at least K zero bytes
+	ClientB string `json:"client_b,omitempty"`
+	ServerA string `json:"server_a,omitempty"`
+}
+
+// secretReader answers the first 256-byte reads (the size crypto/rand.Int uses for a number below 2^2048)
+// with the queued values and passes everything else to the underlying stream.
+type secretReader struct {
+	base io.Reader
+	vals [][]byte
+	hits int
+}
+
+func (r *secretReader) Read(p []byte) (int, error) {
+	if len(p) == 256 && len(r.vals) > 0 {
+		copy(p, r.vals[0])
+		r.vals = r.vals[1:]
+		r.hits++
+		return 256, nil
+	}
+	return r.base.Read(p)
+}
+
+func pad256(x *big.Int) []byte { return x.FillBytes(make([]byte, 256)) }
+
+// safeRange: 1 < x < p-1 and 2^1984 < x < p - 2^1984 (the range both sides must keep g_a and g_b in).
+func safeRange(x, p *big.Int) bool {
+	m := new(big.Int).Lsh(big.NewInt(1), 1984)
+	return x.Cmp(m) > 0 && x.Cmp(new(big.Int).Sub(p, m)) < 0
+}
+
+func parseExp(spec string) (*big.Int, bool) {
+	var n int64
+	if _, err := fmt.Sscanf(spec, "exp:%d", &n); err != nil || n <= 0 {
+		return nil, false
+	}
+	return big.NewInt(n), true
+}
+
+// resolveSecrets turns the witness' secret specifications into numbers (nil = from the stream).
+func resolveSecrets(w wRun, p *big.Int) (a, b *big.Int, ok bool) {
+	three := big.NewInt(3)
+	if w.ServerA != "" {
+		if a, ok = parseExp(w.ServerA); !ok {
+			return nil, nil, false
+		}
+	}
+	switch {
+	case w.ClientB == "":
+	case len(w.ClientB) > 8 && w.ClientB[:8] == "keyzero:":
+		var k int
+		if _, err := fmt.Sscanf(w.ClientB, "keyzero:%d", &k); err != nil || k < 1 || k > 3 || a == nil {
+			return nil, nil, false
+		}
+		ga := new(big.Int).Exp(three, a, p)
+		n := int64(1300)
+		gb := new(big.Int).Exp(three, big.NewInt(n), p)
+		key := new(big.Int).Exp(ga, big.NewInt(n), p)
+		for ; ; n++ {
+			if key.BitLen() <= 2048-8*k && safeRange(gb, p) {
+				break
+			}
+			gb.Mul(gb, three).Mod(gb, p)
+			key.Mul(key, ga).Mod(key, p)
+		}
+		b = big.NewInt(n)
+	default:
+		if b, ok = parseExp(w.ClientB); !ok {
+			return nil, nil, false
+		}
+	}
+	return a, b, true
 }
 
 const baseUnix = 1700000000
@@ -54,6 +132,7 @@ type rng struct {
 	rand  io.Reader
 	pq    *big.Int
 	prime *big.Int
+	a     *big.Int // if set and g^a is inside the range, the secret; otherwise drawn from rand
 }
 
 func (r rng) PQ() (*big.Int, error)      { return new(big.Int).Set(r.pq), nil }
@@ -63,6 +142,12 @@ func (r rng) DhPrime() (*big.Int, error) { return new(big.Int).Set(r.prime), nil
 func (r rng) GA(g int, p *big.Int) (a, ga *big.Int, err error) {
 	m := new(big.Int).Lsh(big.NewInt(1), 1984)
 	hi := new(big.Int).Sub(p, m)
+	if r.a != nil {
+		ga = new(big.Int).Exp(big.NewInt(int64(g)), r.a, p)
+		if ga.Cmp(m) > 0 && ga.Cmp(hi) < 0 {
+			return new(big.Int).Set(r.a), ga, nil
+		}
+	}
 	for {
 		b := make([]byte, 256)
 		if _, err := io.ReadFull(r.rand, b); err != nil {
@@ -90,6 +175,9 @@ func pqValue(name string) *big.Int {
 
 var infraErrors atomic.Int64
 
+// count records coverage numbers of the secrets dimension (which lengths were really run).
+var count = func(string) {}
+
 func infra(format string, a ...any) kit.Result {
 	infraErrors.Add(1)
 	fmt.Fprintf(os.Stderr, "C09: INFRASTRUCTURE: "+format+"\n", a...)
@@ -98,24 +186,42 @@ func infra(format string, a ...any) kit.Result {
 
 func evalRun(w wRun) kit.Result {
 	cc, sc := refexchange.Pipe()
-	ctx, cancel := context.WithTimeout(context.Background(), 150*time.Second)
-	defer cancel()
 
 	clientClock := &refexchange.StepClock{Base: time.Unix(baseUnix, 0)}
 	serverClock := &refexchange.StepClock{Base: time.Unix(baseUnix+1, 0)}
-	serverRand := kit.NewStream(uint64(w.ServerSeed)*2 + 0x5e09)
+	group := w.Server
+	if group == "stock" {
+		group = "telegram"
+	}
+	prime := refexchange.GroupByName(group)
+	if prime == nil {
+		return kit.Result{Trivial: true, Outcome: "unknown-name"}
+	}
+	secA, secB, ok := resolveSecrets(w, prime)
+	if !ok {
+		return kit.Result{Trivial: true, Outcome: "unknown-name"}
+	}
+	// (the safety timeout starts after the search for the secrets)
+	ctx, cancel := context.WithTimeout(context.Background(), 150*time.Second)
+	defer cancel()
+	serverStream := kit.NewStream(uint64(w.ServerSeed)*2 + 0x5e09)
+	var serverRand io.Reader = serverStream
+	var serverSecret *secretReader
+	if secA != nil && w.Server == "stock" {
+		serverSecret = &secretReader{base: serverStream, vals: [][]byte{pad256(secA)}}
+		serverRand = serverSecret
+	}
 	sx := exchange.NewExchanger(sc, w.DC).WithClock(serverClock).WithRand(serverRand).WithTimeout(120 * time.Second)
 	key := exchange.PrivateKey{RSA: trusted}
 	var server exchange.ServerExchange
 	if w.Server == "stock" {
 		server = sx.Server(key)
 	} else {
-		p := refexchange.GroupByName(w.Server)
 		pq := pqValue(w.PQ)
-		if p == nil || pq == nil {
+		if pq == nil {
 			return kit.Result{Trivial: true, Outcome: "unknown-name"}
 		}
-		server = exchange.VerifServerWithRNG(sx, key, rng{rand: serverRand, pq: pq, prime: p})
+		server = exchange.VerifServerWithRNG(sx, key, rng{rand: serverRand, pq: pq, prime: prime, a: secA})
 	}
 
 	var keys []exchange.PublicKey
@@ -127,8 +233,13 @@ func evalRun(w wRun) kit.Result {
 	default:
 		return kit.Result{Trivial: true, Outcome: "unknown-name"}
 	}
-	cx := exchange.NewExchanger(cc, w.DC).WithClock(clientClock).
-		WithRand(kit.NewStream(uint64(w.ClientSeed)*2 + 0xc109)).WithTimeout(120 * time.Second)
+	var clientRand io.Reader = kit.NewStream(uint64(w.ClientSeed)*2 + 0xc109)
+	var clientSecret *secretReader
+	if secB != nil {
+		clientSecret = &secretReader{base: clientRand, vals: [][]byte{pad256(secB)}}
+		clientRand = clientSecret
+	}
+	cx := exchange.NewExchanger(cc, w.DC).WithClock(clientClock).WithRand(clientRand).WithTimeout(120 * time.Second)
 	if w.Temp {
 		cx = cx.WithTempMode(w.ExpiresIn)
 	}
@@ -156,8 +267,49 @@ func evalRun(w wRun) kit.Result {
 	if ctx.Err() != nil || errors.Is(cerr, context.DeadlineExceeded) || errors.Is(serr, context.DeadlineExceeded) {
 		return infra("safety timeout on %+v (client err=%v, server err=%v)", w, cerr, serr)
 	}
+	// The secrets dimension: did the flows really draw the given numbers, and are they numbers an honest
+	// party may keep? (g^x outside the safety range: the statement does not say whether the party has to draw
+	// again or may give up, so both are accepted; such runs are trivial.)
+	label, short := "", ""
+	three := big.NewInt(3)
+	var ga *big.Int
+	if secA != nil {
+		ga = new(big.Int).Exp(three, secA, prime)
+		if !safeRange(ga, prime) {
+			label += ":a-redrawn"
+			ga = nil
+		} else {
+			count(fmt.Sprintf("secret:g_a_bytes=%d", len(ga.Bytes())))
+			if len(ga.Bytes()) < 256 {
+				short += ":short-g_a"
+			}
+		}
+		if serverSecret != nil && serverSecret.hits == 0 {
+			return kit.Result{Trivial: true, Outcome: "secret-not-consumed:server"}
+		}
+	}
+	if secB != nil {
+		if clientSecret.hits == 0 && cerr == nil {
+			return kit.Result{Trivial: true, Outcome: "secret-not-consumed:client"}
+		}
+		gb := new(big.Int).Exp(three, secB, prime)
+		if !safeRange(gb, prime) {
+			if cerr != nil {
+				return kit.Result{Trivial: true, Outcome: "b-outside-safety-range:client-gave-up"}
+			}
+			label += ":b-redrawn"
+		} else {
+			count(fmt.Sprintf("secret:g_b_bytes=%d", len(gb.Bytes())))
+			if len(gb.Bytes()) < 256 {
+				short += ":short-g_b"
+			}
+			if ga != nil && len(new(big.Int).Exp(ga, secB, prime).Bytes()) < 256 {
+				short += ":short-auth-key"
+			}
+		}
+	}
 	if cerr != nil || serr != nil {
-		return kit.Bad("honest-exchange-failed", "client error: %v; server error: %v", cerr, serr)
+		return kit.Bad("honest-exchange-failed"+short, "client error: %v; server error: %v", cerr, serr)
 	}
 	ck, sk := cres.AuthKey, sres.Key
 	if ck.Value == (crypto.Key{}) {
@@ -186,15 +338,65 @@ func evalRun(w wRun) kit.Result {
 	if w.Temp {
 		out = "agree:temporary"
 	}
-	if ck.Value[0] == 0 {
+	out += label + short
+	if z := 256 - len(new(big.Int).SetBytes(ck.Value[:]).Bytes()); z > 0 {
 		out += ":key-leading-zero"
+		count(fmt.Sprintf("auth_key_leading_zero_bytes=%d", z))
 	}
 	return kit.OKo(out)
+}
+
+type expSet struct {
+	all       []int // exponents to run alone
+	perLength []int // the smallest in-range exponent of every byte length of 3^N, ascending
+}
+
+// shortExponents lists exponents N around the window in which 3^N (not reduced mod p) lies inside the
+// safety range (2^1984, p-2^1984); the byte length of 3^N runs through 249..256 there.
+func shortExponents(p *big.Int, every bool) expSet {
+	var s expSet
+	three := big.NewInt(3)
+	v := new(big.Int).Exp(three, big.NewInt(1240), nil)
+	minOf := map[int]int{}
+	lo, hi := 0, 0
+	for n := 1240; n < 1320; n++ {
+		if v.Cmp(p) >= 0 {
+			break
+		}
+		if safeRange(v, p) {
+			l := len(v.Bytes())
+			if _, ok := minOf[l]; !ok {
+				minOf[l] = n
+				s.perLength = append(s.perLength, n)
+			}
+			if lo == 0 {
+				lo = n
+			}
+			hi = n
+		}
+		v.Mul(v, three)
+	}
+	if every {
+		for n := lo - 2; n <= hi+4; n++ {
+			s.all = append(s.all, n)
+		}
+		return s
+	}
+	seen := map[int]bool{}
+	for _, n := range append([]int{lo - 1, hi, hi + 1, hi + 2}, s.perLength...) {
+		if !seen[n] {
+			seen[n] = true
+			s.all = append(s.all, n)
+		}
+	}
+	sort.Ints(s.all)
+	return s
 }
 
 func main() {
 	kit.Main("C09", "exploration", func(c *kit.Ctx) {
 		run := kit.NewFamily(c, "honest-exchange", evalRun)
+		count = func(k string) { c.AddInt(k, 1) }
 		if c.Replaying() {
 			return
 		}
@@ -243,16 +445,73 @@ func main() {
 				}
 			}
 		}
+		// Secrets dimension: DH secrets that make g_b, g_a and the auth key short (leading zero bytes on the wire
+		// and in FillBytes), which uniformly random 2048-bit secrets produce with probability 2^-8k only.
+		nSecret := len(cases)
+		secretGroups := []string{"stock"}
+		if c.Thorough() {
+			secretGroups = []string{"stock", "rfc3526-14", "gen2"}
+		}
+		for _, g := range secretGroups {
+			name := g
+			if g == "stock" {
+				name = "telegram"
+			}
+			ex := shortExponents(refexchange.GroupByName(name), c.Thorough())
+			mk := func(temp bool, a, b string) wRun {
+				w := wRun{Temp: temp, DC: 2, ClientSeed: 300, ServerSeed: 400, Server: g, Keys: "one", ClientB: b, ServerA: a}
+				if g != "stock" {
+					w.PQ = "small"
+				}
+				if temp {
+					w.ExpiresIn = 3600
+				}
+				return w
+			}
+			for _, temp := range []bool{false, true} {
+				for _, n := range ex.all {
+					cases = append(cases, mk(temp, "", fmt.Sprintf("exp:%d", n)), mk(temp, fmt.Sprintf("exp:%d", n), ""))
+				}
+				// both short at once: every pair of length classes (quick: the extreme classes)
+				cross := ex.perLength
+				if c.Quick() {
+					cross = []int{ex.perLength[0], ex.perLength[len(ex.perLength)-1]}
+				}
+				for _, na := range cross {
+					for _, nb := range cross {
+						cases = append(cases, mk(temp, fmt.Sprintf("exp:%d", na), fmt.Sprintf("exp:%d", nb)))
+					}
+				}
+				// short auth key
+				maxZ := 2
+				if c.Thorough() && g == "stock" {
+					maxZ = 3
+				}
+				for k := 1; k <= maxZ; k++ {
+					for _, na := range []int{ex.perLength[0], ex.perLength[len(ex.perLength)-1]} {
+						cases = append(cases, mk(temp, fmt.Sprintf("exp:%d", na), fmt.Sprintf("keyzero:%d", k)))
+					}
+				}
+			}
+		}
+		nSecret = len(cases) - nSecret
+		c.Set("secret_dimension_cases", nSecret)
 		c.Rule("One real exchange.ClientExchange.Run against the in-tree exchange.ServerExchange.Run (two goroutines, in-memory transport.Conn pair, "+
 			"injected deterministic random streams and stepping clocks) per element of {permanent, temporary(3600 s)} x DC in %v x %d (client,server) "+
 			"stream seeds with the stock server (Exchanger.Server: fixed test pq, Telegram's prime), plus the same server flow with a ServerRNG handing out "+
 			"each of the DH primes %v x pq in %v x both modes (client trusting three keys, the server's second; lifetimes 1, 86400, 0, 2^31-1). "+
 			"Oracle: both sides return success, auth keys byte-equal and non-zero, both key ids equal the 64 low-order bits of SHA1(auth_key) computed "+
 			"independently, server salts equal, ExpiresAt zero in permanent mode and client-clock + lifetime in temporary mode. "+
-			"distinct = distinct configurations. Interleavings are those the Go scheduler produced (not enumerated here).", dcs, seeds, groups, pqs)
+			"Secrets dimension (%d configurations): with the stock server (thorough: also the primes rfc3526-14 and gen2 through the ServerRNG) and both modes, "+
+			"the client's b, the server's a, and both, are small exponents N so that g_b / g_a = 3^N has every byte length 249..256 (quick: the smallest "+
+			"N of each length, the largest N in range and the three N just outside; thorough: every N from two below the safety range to two above the first reduction mod p), pairs of length classes "+
+			"(quick 2x2, thorough 8x8), and b chosen (by search from 1300) so that the auth key starts with 1, 2 (thorough, stock: 3) zero bytes for the shortest and longest g_a. "+
+			"Secrets whose g^x is outside (2^1984, p-2^1984) are trivial cases (giving up or drawing again are both accepted). "+
+			"distinct = distinct configurations. Interleavings are those the Go scheduler produced (not enumerated here).", dcs, seeds, groups, pqs, nSecret)
 		c.Assume("the in-tree server flow is the honest server of the statement; RSA test key embedded in lib/refexchange; g is fixed to 3 by the server flow; " +
 			"a 150 s safety timeout is reported as an infrastructure error (exit 2), never as a verdict; schedules are not controlled in this check")
 		workers := runtime.NumCPU()
+		t0 := time.Now()
 		done := make([]bool, len(cases))
 		kit.Parallel(len(cases), workers, func(i int) {
 			if c.Expired() {
@@ -267,6 +526,7 @@ func main() {
 				n++
 			}
 		}
+		fmt.Fprintf(os.Stderr, "C09: %d configurations (%d in the secrets dimension) in %.1fs\n", n, nSecret, time.Since(t0).Seconds())
 		if n != len(cases) {
 			c.NotExhaustive("time budget: %d of %d configurations evaluated", n, len(cases))
 		}
